@@ -362,6 +362,10 @@ pub fn outcome_of<'s>(obs: &mut Obs, id: &str, s: &'s Session, shown: &str) -> O
         }
     }
     if let Stop::Panic(msg, loc) = &out.stop {
+        if loc == "<spin>" {
+            obs.set_fail(format!("{id}:session-spins-without-progress"), format!("{msg}\n{shown}"));
+            return None;
+        }
         obs.set_fail(format!("{id}:{}", crate::props::c01::panic_sig(msg, loc)), format!("panic: {msg} at {loc}\n{shown}"));
         return None;
     }
@@ -529,4 +533,46 @@ pub fn make_mutating_cmd(p: &Prog, r: &RawCmd) -> Cmd {
         14 => Cmd::BreakRemove(make_loc(p, r.a, r.b, r.c, LocMode::Any)),
         _ => Cmd::Reset,
     }
+}
+
+/// A crowd of breakpoints (selector `sel` != 0): 15..18 / 31..34 / 63..66 / 100 / 257 of them on
+/// consecutive words - from the origin on, or ending at a word of the program chosen by the
+/// selector - in a scattered order of insertion.
+pub fn crowd_addrs(p: &Prog, sel: u16) -> Vec<u16> {
+    let k = [15usize, 16, 17, 18, 31, 32, 33, 34, 63, 64, 65, 66, 100, 257][sel as usize % 14];
+    let n = p.img.words.len().max(1);
+    let first: u16 = if (sel / 28) % 2 == 0 {
+        p.orig
+    } else {
+        // the highest breakpoint sits on a word of the program
+        let top = p.orig as usize + (sel as usize / 56 * 7 + sel as usize) % n;
+        top.saturating_sub(k - 1).max(p.orig as usize) as u16
+    };
+    let stride = [7usize, 11, 13, 17, 19, 23].into_iter().find(|s| k % s != 0).unwrap_or(1);
+    (0..k).map(|j| first.wrapping_add(((j * stride) % k) as u16)).collect()
+}
+
+/// What follows the history of a crowd session: up to 40 `continue`s with one or two removals of
+/// crowd members (and one re-insertion) at places the selector chooses.
+pub fn crowd_tail(addrs: &[u16], sel: u16) -> Vec<Cmd> {
+    let m = addrs.len().min(40);
+    let mut out = Vec::new();
+    let at1 = (sel as usize * 31 + 3) % (m + 1);
+    let at2 = (sel as usize * 17 + 11) % (m + 1);
+    for j in 0..=m {
+        if j == at1 {
+            out.push(Cmd::BreakRemove(crate::refdbg::Loc::Abs(addrs[(sel as usize * 5) % addrs.len()], 0)));
+        }
+        if j == at2 && sel % 3 != 0 {
+            let a = addrs[(sel as usize * 13 + 1) % addrs.len()];
+            out.push(Cmd::BreakRemove(crate::refdbg::Loc::Abs(a, 0)));
+            if sel % 3 == 2 {
+                out.push(Cmd::BreakAdd(crate::refdbg::Loc::Abs(a, 0)));
+            }
+        }
+        if j < m {
+            out.push(Cmd::Continue);
+        }
+    }
+    out
 }
